@@ -14,7 +14,7 @@ CONSTANTS
   FailSet = {0}
   MaxReq = 1000000
   SharedBuf = FALSE
-  MmEncodeInAdd = FALSE
+  MmEncodeInAdd = TRUE
   AllowSkip = TRUE
 CONSTRAINT HighWater
 INVARIANT TypeOK
